@@ -186,13 +186,63 @@ class SeqCheck:
                           '## theorem(s) in ' + ', '.join(self.propfiles) + ' no longer check; coq output:\n' + log[-4000:], no_input=True)
 
     def replay(self, ctx, path):
-        seqrun = self.prepare(ctx)
-        if seqrun is None: return 2
-        stats, divs = seqsuite.run_files(ctx, seqrun, 'replay', [path])
-        for d in divs:
-            print(d.replay_text())
-        print(f'replayed {stats.histories} histories, {stats.steps} steps: {len(divs)} divergences')
-        return 1 if divs else 0
+        return generic_replay(self, ctx, path)
+
+def generic_replay(check, ctx, path):
+    """replays what a replay file holds against the current tree: a history (sequential, async, vmem - the runner is chosen from its
+    cfg line), a scripted multi-thread case (S-script / S-drop), or the command of a property-level probe; exit 1 if it still fails"""
+    txt = open(path).read()
+    vm = 'vmem=1' in txt or 'cargo-vmem' in txt
+    m = re.search(r'^## replay: (\.build/(cargo[\w-]*)/debug/([\w-]+))((?: [^\n(]*)?)', txt, re.M)
+    if m and not re.search(r'^cfg ', txt, re.M):
+        # a probe: rebuild it against the current tree, run the recorded command
+        exe, tdir, name, args = m.group(1), m.group(2), m.group(3), m.group(4).split()
+        if tdir == 'cargo-noalloc':
+            with common.Lock('cargo-noalloc'):
+                common.sh(['cargo', 'build', '--offline'], cwd=os.path.join(common.ROOT, 'harness-noalloc'), env={'CARGO_TARGET_DIR': os.path.join(common.BUILD, 'cargo-noalloc')})
+        else:
+            bindir, log = ctx.build_harness((name,), features='vmem' if tdir == 'cargo-vmem' else None)
+            if bindir is None: print(log[-2000:]); return 2
+        rc, out = common.sh([os.path.join(common.ROOT, exe)] + args, timeout=1800)
+        print('\n'.join(out.strip().split('\n')[-12:]))
+        return 1 if (rc != 0 or 'MISMATCH' in out) else 0
+    sm = re.search(r'^## (S-script|S-drop) case \(replay: \.build/cargo/debug/(\w+)', txt, re.M)
+    if sm:
+        runner = sm.group(2)
+        kinds = re.search(r'\[(2n|3n|x|3x)\]', txt)
+        if sm.group(1) == 'S-script' and kinds: runner = {'2n': 'concrun', '3n': 'concrun2', 'x': 'concrun2', '3x': 'concrun3x'}[kinds.group(1)]
+        bindir, log = ctx.build_harness((runner,))
+        if bindir is None: print(log[-2000:]); return 2
+        case = os.path.join(ctx.work, 'replay.cases'); open(case, 'w').write('\n'.join(l for l in txt.split('\n') if l and not l.startswith('#')) + '\n')
+        rc, out = common.sh([os.path.join(bindir, runner), case], timeout=600)
+        print('\n'.join(out.strip().split('\n')[-6:]))
+        return 1 if (rc != 0 or 'MISMATCH' in out) else 0
+    if 'kind=async' in txt:
+        bindir, log = ctx.build_harness(('asyncrun',), features='vmem' if vm else None)
+        if bindir is None: print(log[-2000:]); return 2
+        ok, log = ctx.build_model()
+        runner, mode = os.path.join(bindir, 'asyncrun'), 'async'
+    elif vm:
+        bindir, log = ctx.build_harness(('seqrun',), features='vmem')
+        if bindir is None: print(log[-2000:]); return 2
+        ok, log = ctx.build_model()
+        runner, mode = os.path.join(bindir, 'seqrun'), 'seq'
+    else:
+        bindir, log = ctx.build_harness(('seqrun',))
+        if bindir is None: print(log[-2000:]); return 2
+        ok, log = ctx.build_model()
+        runner, mode = os.path.join(bindir, 'seqrun'), 'seq'
+    # one history per cfg line (a replay of the variant suite lists several buffer types for one history)
+    ls = [l for l in txt.split('\n') if l.strip() and not l.startswith('#')]
+    cfgs = [l for l in ls if l.startswith('cfg ')]; ops = [l for l in ls if not l.startswith('cfg ')]
+    hist = os.path.join(ctx.work, 'replay.hist')
+    with open(hist, 'w') as f:
+        for c in cfgs: f.write('# replay\n' + c + '\n' + '\n'.join(ops) + '\n')
+    stats, divs = seqsuite.run_files(ctx, runner, 'replay', [hist], mode=mode)
+    for d in divs[:3]:
+        print(d.replay_text())
+    print(f'replayed {stats.histories} histories, {stats.steps} steps: {len(divs)} divergences')
+    return 1 if divs else 0
 
 SEQ_TEXT = ('Theorems (Coq, all lengths / states / histories): the Model refines the Spec (step_refines, run_refines, init_refines) and the '
             'property statements in Props/%s.v follow; tie: differential run of the extracted Model against the real crate on generated histories, '
